@@ -197,7 +197,13 @@ impl Tzif {
     pub fn from_path(path: &Path) -> TemporalResult<Self> {
         tzif::parse_tzif_file(path)
             .map(Into::into)
-            .map_err(|e| TemporalError::general(e.to_string()))
+            .map_err(|e| match e {
+                // No data for the identifier: it is not an available time zone identifier.
+                tzif::error::Error::Io(io) if io.kind() == std::io::ErrorKind::NotFound => {
+                    TemporalError::range().with_message("Unknown time zone identifier.")
+                }
+                e => TemporalError::general(e.to_string()),
+            })
     }
 
     pub fn posix_tz_string(&self) -> Option<&PosixTzString> {
